@@ -54,7 +54,8 @@ type c17Case struct {
 	Mode    plMode
 	TermLWS string // sp terminator: the LWS text; others: LWS before the terminator
 	Cap     int
-	Cut     int // > 0: two chunks, the first of this length (not with the end-of-input flag)
+	Cut     int  // > 0: two chunks, the first of this length (not with the end-of-input flag)
+	NoReset bool `json:",omitempty"` // ParseTokenParam loop: the same PTokParam is passed again without Reset (documented use)
 }
 
 type plExp struct {
@@ -165,6 +166,9 @@ func evalC17(cs *c17Case) (vs []*Violation) {
 	buf, exp, _, endOffs, wantErr := cs.render()
 	site := map[string]string{"tok": "ParseTokenParam", "uriparams": "ParseAllURIParams", "urihdrs": "ParseAllURIHdrs"}[cs.Mode.Via]
 	cls := cs.Mode.Term + "/" + gapsUsed(cs)
+	if cs.NoReset {
+		cls += "/same-param-again-without-reset"
+	}
 	add := func(rule, class, detail string) {
 		c := mkCase("C17", site, &Cfg{Flags: cs.Mode.Flags, ValCap: cs.Cap, HdrCap: -1}, buf, nil)
 		c.Extra = map[string]any{"case": cs}
@@ -233,7 +237,9 @@ func evalC17(cs *c17Case) (vs []*Violation) {
 			if last {
 				return
 			}
-			p.Reset()
+			if !cs.NoReset {
+				p.Reset()
+			}
 			offs = n
 		}
 	case "uriparams":
@@ -474,6 +480,13 @@ func checkC17(r *Run) {
 			}
 		}
 		vs := evalC17(cs)
+		if cs.Mode.Via == "tok" && len(cs.Items) >= 2 && !cs.NoReset {
+			// "another call to ParseTokenParam will return p2=v2": the same structure again, without Reset
+			cc := *cs
+			cc.NoReset = true
+			vs = append(vs, evalC17(&cc)...)
+			c.st.Transitions++
+		}
 		c.st.Evals++
 		c.st.Transitions++
 		c.st.States++
